@@ -131,6 +131,15 @@ func BuildNode(n Node) any {
 			m[k] = v
 		}
 		return m
+	case "mpa":
+		m := map[string]any{}
+		ks, _ := n["ks"].([]any)
+		for i, e := range nKids(n, "e") {
+			if i < len(ks) {
+				m[Detok(anyToks(ks[i]))] = BuildNode(e)
+			}
+		}
+		return m
 	case "st":
 		a, _ := strconv.Atoi(Detok(nToks(n, "a")))
 		return eqStruct{A: a, p: Detok(nToks(n, "p")), C: Detok(nToks(n, "c"))}
